@@ -63,7 +63,7 @@ class ApplyHistory(Machine):
                        "memo_same_array_after_refill", "same_shape_different_values",
                        "batch_middle_fails", "batch_gt_n", "batch_not_dividing", "exception_then_success",
                        "mask_checked", "apply_shape", "constrain_batched", "set_target_between_applies",
-                       "out_of_domain_mix", "apply_on_copy", "integer_dtype_buffer")
+                       "out_of_domain_mix", "apply_on_copy", "integer_dtype_buffer", "non_contiguous_view_input")
 
     @classmethod
     def swarm(cls, rng, tier):
@@ -84,7 +84,7 @@ class ApplyHistory(Machine):
         if r < 0.62:
             return {"op": "apply", "t": rng.randrange(64), "b": rng.randrange(64),
                     "batch": rng.choice([0, 0, 1, 2, 3, 4, 5, 7, 11, 13, 14]),
-                    "how": rng.choice([0, 0, 0, 1, 2]), "same": rng.randrange(2)}
+                    "how": rng.choice([0, 0, 0, 1, 2, 3]), "same": rng.randrange(2)}
         if r < 0.76:
             return {"op": "edit", "b": rng.randrange(64), "exp": rng.randrange(3, 13), "seed": rng.getrandbits(16),
                     "one": rng.randrange(2)}
@@ -314,6 +314,13 @@ class ApplyHistory(Machine):
         how = op["how"]
         if how == 2:
             arg = a.copy()           # equal values, different array object
+        elif how == 3:
+            # equal values seen through a non-contiguous view of a larger buffer the caller owns
+            big = np.empty((2 * n + 1, a.shape[1] + 1), dtype=a.dtype)
+            big[...] = 7
+            big[1::2, 1:][:n] = a
+            arg = big[1::2, 1:][:n]
+            ctx.probe("non_contiguous_view_input")
         else:
             arg = a
         snapshot = arg.copy()
